@@ -887,8 +887,73 @@ func c03AcrossVersion(dotu bool, maxpend, P int) Scenario {
 	return vsScenario(&VsSpec{Name: name, Body: body, Check: check, P: P})
 }
 
+// c03BurstBehindStalledWriter: n large replies (more than 64 KiB in all) become ready
+// while the writer cannot write; then it can. Each request gets exactly one reply, its
+// own (a writer that gathers replies must not send any of them twice).
+func c03BurstBehindStalledWriter(n int, count uint32, maxpend int, dotu bool) Scenario {
+	name := fmt.Sprintf("burst of %d replies of %d bytes behind a stalled writer maxpend=%d dotu=%v", n, count, maxpend, dotu)
+	return Scenario{Name: name, Run: func(rc *RunCtx) *Result {
+		res := &Result{Exhaustive: true}
+		var fail string
+		body := func() {
+			s := newSess(SrvOpt{Msize: 8216, Dotu: dotu, Maxpend: maxpend})
+			s.rpcOK(twalk(s.tag(), 0, 1, "f"), wire.Rwalk)
+			s.rpcOK(&wire.Msg{Type: wire.Topen, Tag: s.tag(), Fid: 1, Mode: 0}, wire.Ropen)
+			n0 := len(s.c.Collect())
+			s.c.SrvEnd.StallOutgoing()
+			for i := 0; i < n; i++ {
+				tg := uint16(500 + i)
+				s.fs.Script[reqKey{0, tg, 0}] = &Action{ReadFull: true}
+				s.c.Send(dotu, &wire.Msg{Type: wire.Tread, Tag: tg, Fid: 1, Offset: uint64(i * 3), Count: count - uint32(i%5)})
+				vs.Idle()
+			}
+			s.c.SrvEnd.UnstallOutgoing()
+			vs.Idle()
+			got := map[uint16]int{}
+			for _, f := range s.c.Collect()[n0:] {
+				if f.Msg == nil {
+					fail = "a reply does not parse: " + f.Err
+					return
+				}
+				got[f.Msg.Tag]++
+				ok := false
+				for _, r := range s.fs.resps(0, f.Msg.Tag, 0) {
+					if r.Reply == renderReply(f.Msg) {
+						ok = true
+					}
+				}
+				if !ok {
+					fail = fmt.Sprintf("the reply under tag %d is not what the implementation produced for that request", f.Msg.Tag)
+					return
+				}
+			}
+			for i := 0; i < n; i++ {
+				if c := got[uint16(500+i)]; c != 1 {
+					fail = fmt.Sprintf("tag %d was answered %d times (%d replies of about %d bytes were ready together while the writer was blocked)", 500+i, c, n, count)
+					return
+				}
+			}
+		}
+		x := vs.Run(nil, body, vs.Options{Horizon: 500000000})
+		res.Evals++
+		res.Nontrivial++
+		res.States++
+		res.Traces++
+		if len(x.Panics) > 0 {
+			fail = "panic: " + x.Panics[0].Value
+		} else if len(x.Fails) > 0 && fail == "" {
+			fail = "harness: " + x.Fails[0]
+		}
+		if fail != "" {
+			res.Findings = append(res.Findings, Finding{Sig: "C03/burst-behind-stalled-writer/" + sigWords(fail), Msg: name + ": " + fail})
+		}
+		return res
+	}}
+}
+
 func c03Scenarios(tier string) []Scenario {
 	var out []Scenario
+	out = append(out, c03BurstBehindStalledWriter(12, 8000, 0, false), c03BurstBehindStalledWriter(20, 8192, 2, true), c03BurstBehindStalledWriter(70, 1000, 1, false))
 	out = append(out, c03AcrossVersion(false, 0, 1), c03AcrossVersion(true, 2, 1))
 	// Tflush is a request too: flushes of flushes are each owed exactly one reply
 	for i, st := range []string{"flushflush2", "flushflush3", "twoflush"} {
